@@ -59,10 +59,11 @@ def drive(draw, h, cfg):
     vers = draw(gen.versions_for(names)) if gen.chance(draw, 0.3) else (h.last.get('versions', {}) if h.last else {})
     # ---- counting run == twin
     h.apply(['save'])
-    h.failures.extend(h.apply(['build', vers, None]))
+    h.failures.extend(h.apply(['build', vers, None, None, {'k': None}]))      # fault-free run that also lists the library's mutating calls
     if h.dead:
         return
     K = h.rctx.boundary
+    labels = list(h.last_fault['labels'])
     h.stats['c02_prefixes'] += 1
     h.stats['c02_boundaries'] += K
     if K <= KMAX:
@@ -82,6 +83,20 @@ def drive(draw, h, cfg):
         if h.dead:
             break
         h.failures.extend(h.apply(['build', vers, None, None, 'cmp_twin']))
+    # ---- position K+1: the root function returned, writing the cache file fails
+    if not h.dead and 'gzip.open:w' in labels:
+        h.apply(['restore'])
+        h.failures.extend(h.apply(['build', vers, None, None, {'k': labels.index('gzip.open:w'), 'catch': False}]))
+        if getattr(h, 'last_fault', {}).get('fired'):
+            h.stats['c02_cache_write_failures'] += 1
+            if h.last.get('has_cache'):
+                h.c02_nt += 1
+        if not h.dead:
+            h.failures.extend(h.apply(['build', vers, None, None, 'cmp_twin']))
+
+
+def adopt(h, f):
+    return 'C02.cache_write_failure_not_surfaced' if f['clause'] == 'C14.not_surfaced' else None
 
 
 def nontrivial(h):
@@ -89,7 +104,7 @@ def nontrivial(h):
 
 
 def plan(tier, seed):
-    return histprop.plan_shards(tier, seed, 6000, 120000)
+    return histprop.plan_shards(tier, seed, 4500, 120000)
 
 
 def run_shard(shard):
@@ -102,7 +117,7 @@ def run_shard(shard):
 
 def replay(case):
     from ..harness import run_scenario
-    return run_scenario(case, clauses=CLAUSES)[0]
+    return run_scenario(case, clauses=CLAUSES, adopt=adopt)[0]
 
 
 def shrink_candidates(case):
